@@ -1,17 +1,20 @@
 import TwistedModel.Reactor.Looping
 /-!
 Driver glue for C10.
-  `C10 <c|p> <script> <op> <op> …`
+  `C10 <c|p> <script> <reactions> <op> <op> …`
      `c` = built with `LoopingCall.withCount`, `p` = plain `LoopingCall`
      `<script>` = `-` or behaviours joined by `,`: `r` return, `x` raise, `d` return unfired Deferred,
                   `s` stop() then return, `t` stop() then return unfired Deferred
+     `<reactions>` = `-` or, joined by `;`, what the callback of start()'s Deferred does at its 1st, 2nd, … firing:
+                  `-` nothing, or `S:<interval>:<0|1>` / `X` / `R` joined by `,` (run synchronously inside the firing)
      ops: `S:<interval>:<0|1>` start(interval, now)   (interval in ticks, > 0, or negative → ValueError)
           `A:<ticks>` clock.advance (≥ 0)   `F` fire the function's Deferred   `E` errback it
           `X` stop()   `R` reset()
   → `<evs>|<evs>|… run=<0|1> sched=<ticks or ->`, one `<evs>` per op = events joined by `,` (`-` when none):
      `c<t>:<count or ->` user function called at tick t, `z<t>` counter ran but did not call it,
      `d+` / `d-` start() Deferred fired with callback / errback, `!A` AssertionError, `!V` ValueError.
-  A `start` while the function's Deferred is unfired, interval 0, or negative advance → `bad-op` (outside the model).
+  A `start` (top level or in a reaction) while the function's Deferred is unfired, interval 0, or negative
+  advance → `bad-op` (outside the model).
 -/
 namespace Twisted.Drv.C10
 open Twisted.Reactor.Looping
@@ -36,6 +39,22 @@ def decOp (s : String) : Option Op :=
   | ["R"] => some .reset
   | _ => none
 
+def decROp (s : String) : Option ROp :=
+  match s.splitOn ":" with
+  | ["S", i, n] => do
+      let i ← i.toInt?
+      let n ← (if n = "1" then some true else if n = "0" then some false else none)
+      pure (ROp.start i n)
+  | ["X"] => some .stop
+  | ["R"] => some .reset
+  | _ => none
+
+def decReaction (s : String) : Option (List ROp) :=
+  if s = "-" then some [] else (s.splitOn ",").mapM decROp
+
+def decReactions (s : String) : Option (List (List ROp)) :=
+  if s = "-" then some [] else (s.splitOn ";").mapM decReaction
+
 def showEv : Ev → String
   | .call t none => "c" ++ toString t ++ ":-"
   | .call t (some c) => "c" ++ toString t ++ ":" ++ toString c
@@ -56,23 +75,24 @@ def runChecked : St → List Op → Option (St × List (List Ev))
       | .start _ _ => s.inflight
       | _ => false
     if bad then none else
-    let (s', e) := step s op
+    let (s', e) := stepR s op
+    if s'.outside then none else
     match runChecked s' ops with
     | some (s'', es) => some (s'', e :: es)
     | none => none
 
 def handle (args : List String) : String :=
   match args with
-  | wc :: script :: ops =>
+  | wc :: script :: reactions :: ops =>
     match (if wc = "c" then some true else if wc = "p" then some false else none),
-          decScript script, ops.mapM decOp with
-    | some wc, some script, some ops =>
-      match runChecked (init wc script) ops with
+          decScript script, decReactions reactions, ops.mapM decOp with
+    | some wc, some script, some reactions, some ops =>
+      match runChecked (initR wc script reactions) ops with
       | some (s, es) =>
         "|".intercalate (es.map showEvs) ++ " run=" ++ (if s.running then "1" else "0") ++
           " sched=" ++ (match s.call with | some t => toString t | none => "-")
       | none => "bad-op"
-    | _, _, _ => "bad-op"
+    | _, _, _, _ => "bad-op"
   | _ => "bad-op"
 
 end Twisted.Drv.C10
